@@ -195,6 +195,23 @@ def impl(case):
         out['mask'] = [bool(b) for b in T.ergodic_mask(M)]
     except Exception as exc:  # noqa
         out['mask'] = 'err:' + type(exc).__name__
+    if M.ndim == 2 and M.shape[0] == M.shape[1] and M.shape[0] >= 2:
+        # the predicates depend on the values only, not on the memory layout of the matrix
+        from implutil import alt_layouts
+        diff = []
+        for lname, A in alt_layouts(M).items():
+            keep = A.copy()
+            for name, f in (('tmat', T.is_transition_matrix), ('erg', T.is_ergodic), ('fuzzy', T.is_fuzzy_ergodic), ('mask', T.ergodic_mask)):
+                try:
+                    v = f(A)
+                    v = [bool(b) for b in v] if name == 'mask' else bool(v)
+                except Exception as exc:  # noqa
+                    v = 'err:' + type(exc).__name__
+                if v != out[name]:
+                    diff.append('%s on a %s matrix: %s, C-ordered: %s' % (name, lname, v, out[name]))
+            if not np.array_equal(keep, A):
+                diff.append('a %s matrix was modified' % lname)
+        out['layout_diff'] = diff
     return out
 
 
@@ -226,6 +243,10 @@ def judge(case, ibc, answers):
         return probs
     m = decode(answers[0])
     decidable = m['tfree'] and m['rclear']
+    if decidable:
+        for cfg, r in ibc.items():
+            for d in r.get('layout_diff') or []:
+                probs.append({'kind': 'impl-vs-spec', 'cfg': cfg, 'finding': None, 'what': d})
     if decidable and m['stoch']:
         if m['erg'] != m['gerg']:
             probs.append({'kind': 'model-vs-spec', 'cfg': '-', 'finding': None,
